@@ -43,7 +43,7 @@ Q_OPTS = {
     'C17': dict(opts={'caching': (False, True), 'evals': 2, 'ordered': True}, judge=dict(ordered=True)),
     'C03': dict(opts={'caching': (False, True), 'evals': 2}, judge=dict(check_tree=True)),
     'C15': dict(opts={'caching': (False, True), 'evals': 1}, judge=dict(check_tree=True)),
-    'C09': dict(opts={'caching': (False, True), 'evals': 2, 'ambients': (None, 'query', 'rule')}, judge={}),
+    'C09': dict(opts={'caching': (False, True), 'evals': 2, 'ambients': (None, 'query', 'rule', 'split:query', 'split:rule')}, judge={}),
 }
 
 
